@@ -6,8 +6,12 @@ in-order sequence of operands and operators (Model: `fmt`), and the parser
 (Model/Prec.lean `parseFormula`, proved in C02 to return the unique well-grouped tree of its
 input) reads that sequence back.  For the rest of the grammar the round trip is checked on
 the implementation directly (search, not proof).
+
+String literals (Model/StrLit.lean): the scanner of `utf8_string` over grapheme classes and the
+emitter `Formatter::string`; the content of a literal survives formatting and re-parsing.
 -/
 import MechVerif.Props.C02
+import MechVerif.Lemmas.StrLit
 namespace MechVerif.Prec
 
 variable {α : Type}
@@ -45,3 +49,44 @@ theorem C08_formula_text_is_source (N : Nat) (a : α) (rest : Rest α) (h : OpsI
   exact Prod.ext hin.1 hall.2
 
 end MechVerif.Prec
+
+namespace MechVerif.StrLit
+
+/-- A string literal round-trips: whatever the content (quotes, backslashes, letters that name an
+    escape, line breaks, emoji — any graphemes `text` accepts), the characters the formatter
+    writes for it are read back by the parser as the same content, and the input after the
+    closing quote is untouched.  The second part ties the grapheme-level emitter to the
+    character-level code of `Formatter::string`. -/
+theorem C08_string_roundtrip (gs : List G) (h : ∀ g ∈ gs, okContent g ∧ segmented g) (rest : List G) :
+    scan (escape gs ++ quoteG :: rest) = some (content gs, rest) ∧
+    content (escape gs) = escapeChars (content gs) :=
+  ⟨scan_escape gs (fun g hg => (h g hg).1) rest, content_escape gs h⟩
+
+/-- Formatting again changes nothing: the text is a function of the content, and the content read
+    back from the text is the content it was written from. -/
+theorem C08_string_idempotent (gs : List G) (h : ∀ g ∈ gs, okContent g ∧ segmented g) (rest : List G) :
+    ∀ cs r, scan (escape gs ++ quoteG :: rest) = some (cs, r) → escapeChars cs = escapeChars (content gs) := by
+  intro cs r hs
+  rw [(C08_string_roundtrip gs h rest).1] at hs
+  cases hs; rfl
+
+/-- Why the emitter must escape: written as it is, the content `a"b` is read back as `a`
+    (the behaviour of the pinned commit before the `fix:` of the string emitter). -/
+theorem C08_string_unescaped_is_cut :
+    scan ([⟨.escapable, ['a']⟩, quoteG, ⟨.escapable, ['b']⟩] ++ [quoteG]) = some (['a'], [⟨.escapable, ['b']⟩, quoteG]) := by
+  simp [scan, quoteG]
+
+/-- a backslash before the closing quote would swallow it: `a\` written unescaped does not
+    even end -/
+theorem C08_string_unescaped_backslash_runs_on :
+    scan ([⟨.escapable, ['a']⟩, backslashG] ++ [quoteG]) = none := by
+  simp [scan, quoteG, backslashG]
+
+example : okContent quoteG ∧ segmented quoteG := by
+  unfold okContent segmented quoteG
+  simp
+example : okContent ⟨.escapable, ['n']⟩ ∧ segmented ⟨.escapable, ['n']⟩ := by
+  unfold okContent segmented
+  simp
+
+end MechVerif.StrLit
